@@ -110,12 +110,19 @@ def _g1(run, M, alg, base):
     want = alg.neg(me)
     ok = len(outs) == 1 and isinstance(outs[0].ret, LV) and outs[0].ret.as_term() == want.as_term()
     run.check(ok, "G1", "Linop.__neg__", f.loc(), "-A -> (-1) * A", "-A builds %s; expected -1 * self" % (_d(outs[0].ret) if outs else "nothing"), stmt="G1:neg")
+    from ..model import resolve_temp
+
+    def ret_src(fn):
+        last = fn.node.body[-1]
+        if isinstance(last, ast.Return) and last.value is not None:
+            return "return" + unparse(resolve_temp(fn.node, last.value)).replace(" ", "")
+        return unparse(last).replace(" ", "")
     f = meth("__sub__")
-    src = unparse(f.node.body[-1]).replace(" ", "")
+    src = ret_src(f)
     ok = src in ("returnself.__add__(-input)", "returnself+-input", "returnself+(-input)", "returnAdd([self,-input])")
     run.check(ok, "G1", "Linop.__sub__", f.loc(), "A - B -> A + (-B)", "A - B is implemented as `%s`; expected self + (-input)" % unparse(f.node.body[-1]), stmt="G1:sub")
     f = meth("__call__")
-    src = unparse(f.node.body[-1]).replace(" ", "")
+    src = ret_src(f)
     ok = src in ("returnself.__mul__(input)", "returnself*input", "returnself.apply(input)")
     run.check(ok, "G1", "Linop.__call__", f.loc(), "A(x) -> A * x", "A(x) is implemented as `%s`" % unparse(f.node.body[-1]), stmt="G1:call")
 
